@@ -1342,7 +1342,10 @@ fn spawn_child() -> Child {
     Child { child, stdin, rx }
 }
 
+/// first attempt, among the other sequences of the worker
 const WATCHDOG: Duration = Duration::from_secs(30);
+/// second attempt, alone in a fresh worker: only a sequence that stays unanswered this long hangs
+const LONG_WATCHDOG: Duration = Duration::from_secs(600);
 
 struct Outcome {
     mismatches: Vec<(usize, String, String, String)>, // step, op, aspect, detail
@@ -1351,7 +1354,7 @@ struct Outcome {
     events: Vec<String>,
 }
 
-fn submit(c: &mut Child, id: u64, ops: &[Op]) -> Outcome {
+fn submit(c: &mut Child, id: u64, ops: &[Op], watchdog: Duration) -> Outcome {
     let mut out = Outcome { mismatches: vec![], died_at: None, timeout: false, events: vec![] };
     let line = json!({"id": id, "ops": ops}).to_string();
     let mut started: Option<usize> = None;
@@ -1361,7 +1364,7 @@ fn submit(c: &mut Child, id: u64, ops: &[Op]) -> Outcome {
         return out;
     }
     loop {
-        match c.rx.recv_timeout(WATCHDOG) {
+        match c.rx.recv_timeout(watchdog) {
             Ok(l) => {
                 let Ok(v) = serde_json::from_str::<serde_json::Value>(&l) else { continue };
                 if v["id"].as_u64() != Some(id) {
@@ -1414,7 +1417,16 @@ pub fn run_seqs(ctx: &Ctx, seqs: Vec<Vec<Op>>) {
                 for (i, ops) in part.iter().enumerate() {
                     let id = (w * chunk + i) as u64;
                     let mut rep = vcore::runner::Report::default();
-                    let out = submit(&mut child, id, ops);
+                    let mut out = submit(&mut child, id, ops, WATCHDOG);
+                    if out.timeout {
+                        // a loaded machine is not a hang: second, long attempt alone in a fresh worker
+                        rep.class("slow_sequence_second_attempt");
+                        child = spawn_child();
+                        let mut c2 = spawn_child();
+                        out = submit(&mut c2, id, ops, LONG_WATCHDOG);
+                        let _ = c2.child.kill();
+                        let _ = c2.child.wait();
+                    }
                     let mut violations: Vec<(Violation, usize)> = vec![];
                     for (step, op, aspect, detail) in &out.mismatches {
                         violations.push((Violation::new(format!("mismatch:{op}:{aspect}"), format!("step {step} ({op}): {detail}")), *step));
@@ -1425,8 +1437,7 @@ pub fn run_seqs(ctx: &Ctx, seqs: Vec<Vec<Op>>) {
                         child = spawn_child();
                     }
                     if out.timeout {
-                        inconclusive.store(true, std::sync::atomic::Ordering::Relaxed);
-                        child = spawn_child();
+                        violations.push((Violation::new("hang".to_string(), format!("no answer within {:?} and, alone in a fresh worker, within {:?}", WATCHDOG, LONG_WATCHDOG)), ops.len().saturating_sub(1)));
                     }
                     let state_changes = out.events.iter().filter(|e| matches!(e.as_str(), "builder_item" | "token_built" | "token_appended" | "token_parsed" | "authorizer_built")).count();
                     let observed = out.events.iter().any(|e| matches!(e.as_str(), "serialized" | "sealed_serialized" | "key_serialized" | "authorized"));
@@ -1455,10 +1466,7 @@ pub fn run_seqs(ctx: &Ctx, seqs: Vec<Vec<Op>>) {
             });
         }
     });
-    if inconclusive.load(std::sync::atomic::Ordering::Relaxed) {
-        ctx.extra("aborted", json!(true));
-        ctx.note("a watchdog expired: inconclusive");
-    }
+    let _ = inconclusive;
 }
 
 pub fn run(ctx: &Ctx, replay: Option<&serde_json::Value>) {
